@@ -736,3 +736,99 @@ class ScfInterchange:
 register(Obligation(name="C09.scf.builtin_vs_bridge", prop=PROP, engine="B", bounded=True, run=ScfInterchange(), budget={"quick": 300, "thorough": 900},
                     functions=["eminus.extras.libxc:libxc_functional", "eminus.xc.utils:get_xc", "eminus.dft:get_grad", "eminus.energies:get_E"],
                     doc="BOUNDED: selecting a functional through the Libxc bridge instead of the built-in gives the same SCF energy and gradient at the same coefficients"))
+
+
+# =================================================================================================
+# the name tables: Libxc numbers, shorthands and aliases select the functional whose docstring claims that Libxc entry
+# =================================================================================================
+
+
+class NameTable:
+    """Exhaustive (finite tables read from the tree under check): every numeric key of XC_MAP maps to the built-in functional whose docstring
+    claims that Libxc ID, the claimed (label, ID) pairs agree with the Libxc table shipped with PySCF, every shorthand / alias resolves (through
+    the real parse_functionals) to implemented functionals, every implemented functional has its spin-polarised variant with the same claim,
+    and exchange / correlation shorthands end up in the slot of their kind."""
+
+    def problems(self):
+        import re
+
+        import eminus
+        from eminus.xc import utils as U
+
+        eminus.config.backend = "numpy"
+        bad = []
+        claim = {}
+        for name, fn in U.IMPLEMENTED.items():
+            m = re.search(r"label (\w+) and ID (\d+) in Libxc", fn.__doc__ or "")
+            if m:
+                claim[name] = (m.group(1), int(m.group(2)))
+        try:
+            from pyscf.dft import libxc
+
+            import numbers
+
+            # the genuine Libxc entries (numpy integers); PySCF's own shorthands (plain ints / strings such as 'LDA' -> 1) are left out
+            codes = {k.upper(): int(v) for k, v in libxc.XC_CODES.items() if isinstance(v, numbers.Integral) and not isinstance(v, (bool, int))}
+        except Exception:  # noqa: BLE001
+            codes = None
+        for name, (label, lid) in claim.items():
+            base = name[: -len("_spin")] if name.endswith("_spin") else name
+            if claim.get(base) != (label, lid):
+                bad.append(f"{name} claims {(label, lid)} but {base} claims {claim.get(base)}")
+            if codes is not None and label in codes and codes[label] != lid:  # labels this Libxc build does not know cannot be compared
+                bad.append(f"{name} claims Libxc {label} = {lid}; the Libxc table says {codes[label]}")
+            if codes is not None and label not in codes and lid in codes.values():
+                bad.append(f"{name} claims Libxc ID {lid} for {label}; the Libxc table has that ID for {[k for k, v in codes.items() if v == lid][:2]}")
+            if label.lower().replace("_", "") != base.replace("_", ""):
+                bad.append(f"{name} claims the Libxc label {label}")
+        n_num = 0
+        for key, target in U.XC_MAP.items():
+            if target not in U.IMPLEMENTED:
+                bad.append(f"XC_MAP[{key!r}] = {target!r} is not implemented")
+                continue
+            if target != "lda_xc_corr_ksdt" and target + "_spin" not in U.IMPLEMENTED:
+                bad.append(f"{target} has no spin-polarised variant")
+            if key.isdigit():
+                n_num += 1
+                if target not in claim or claim[target][1] != int(key):
+                    bad.append(f"XC_MAP[{key!r}] = {target!r}, whose docstring claims Libxc ID {claim.get(target, (None, None))[1]}")
+            got = U.parse_functionals(key)
+            want = [target, "mock_xc"]
+            if key in U.ALIAS:  # a name that is also a combined alias ('chachiyo'): the alias wins for the bare name, the shorthand inside a pair
+                got = want
+            if got != want:
+                bad.append(f"parse_functionals({key!r}) = {got}, expected {want}")
+            kind = target.split("_")[1]
+            if kind in ("x", "c"):
+                pair = U.parse_functionals(f"{key},") if kind == "x" else U.parse_functionals(f",{key}")
+                if pair[0 if kind == "x" else 1] != target:
+                    bad.append(f"{key!r} in the {'exchange' if kind == 'x' else 'correlation'} slot parses to {pair}")
+        for key, val in U.ALIAS.items():
+            got = U.parse_functionals(key)
+            parts = [U.XC_MAP[p.replace("_", "")] for p in val.split(",")]
+            if got != parts:
+                bad.append(f"alias {key!r} -> {val!r} parses to {got}, expected {parts}")
+            if len(got) != 2 or got[0].split("_")[1] != "x" or got[1].split("_")[1] != "c":
+                bad.append(f"alias {key!r} does not give (exchange, correlation): {got}")
+        return bad, dict(claims=len(claim), numeric_keys=n_num, shorthands=len(U.XC_MAP), aliases=len(U.ALIAS), libxc_table=codes is not None)
+
+    def __call__(self, ob, tier, seed):
+        try:
+            bad, st = self.problems()
+        except Exception as e:  # noqa: BLE001
+            return Result(REFUTED, backend="exhaustive-native", witness=dict(raised=f"{type(e).__name__}: {e}"), replayed=True, replay_info=dict(raised=f"{type(e).__name__}: {e}"),
+                          detail=f"the functional name tables cannot be evaluated: {type(e).__name__}: {e}")
+        if bad:
+            return Result(REFUTED, backend="exhaustive-native", witness=dict(first=bad[0]), replayed=True, replay_info=dict(problems=bad[:10]), detail=f"functional name tables: {bad[0]}")
+        if st["claims"] < 20 or st["numeric_keys"] < 10:
+            return Result(UNDECIDED, backend="exhaustive-native", detail=f"tables look empty: {st}")
+        return Result(DISCHARGED, backend="exhaustive-native", stats=st)
+
+    def replay(self, wit):
+        bad, st = self.problems()
+        return bool(bad), dict(problems=bad[:10])
+
+
+register(Obligation(name="C09.name_tables.ids_shorthands_aliases", prop=PROP, engine="X", functions=["eminus.xc.utils:parse_functionals", "eminus.xc.utils:XC_MAP", "eminus.xc.utils:ALIAS"],
+                    run=NameTable(), assumes=("cpython",),
+                    doc="every Libxc number / shorthand / alias selects the built-in functional whose docstring claims that Libxc entry (claims checked against the Libxc table of PySCF)"))
